@@ -78,6 +78,22 @@ func c18Cells(tier string) []Cell {
 		}
 	}
 
+	// ... the same table with one backend call (two in the thorough tier) failing, at every position ...
+	for front := 0; front < 3; front++ {
+		for bits := 0; bits < 32; bits++ {
+			for _, init := range []string{"A", "F", "S", "T"} {
+				for _, sc := range []string{"o", "f"} {
+					c := FCfg{
+						Front: front, SU: boolBits(bits, 0), SR: boolBits(bits, 1), FH: boolBits(bits, 2), MS: boolBits(bits, 3),
+						FTNeg: boolBits(bits, 4), Init: init, FailC: "0", Script: sc, Threads: [][]GOp{{{Key: 0}}}, Tags: []string{"stats"},
+						Faults: true,
+					}
+					cells = append(cells, Cell{ID: c18Cell{Mode: "failover", F: &c}.id()})
+				}
+			}
+		}
+	}
+
 	// ... and concurrent workloads.
 	progs := [][][]GOp{
 		{{{Key: 0}, {Key: 0}}, {{Key: 0}}},
@@ -359,6 +375,14 @@ func c18Failover(cfg FCfg, env *Env) CellResult {
 	opt := vsched.Options{PreemptionBound: 2, EnvBound: 0, HBCache: true}
 	if len(cfg.Threads) == 1 {
 		opt = vsched.Options{PreemptionBound: -1, EnvBound: 0, HBCache: true}
+
+		if cfg.Faults {
+			opt.EnvBound = 1
+
+			if env.Thorough() {
+				opt.EnvBound = 2
+			}
+		}
 	} else if env.Thorough() {
 		opt = vsched.Options{PreemptionBound: 3, EnvBound: 0, HBCache: true, MaxExecs: 300000}
 	}
@@ -395,6 +419,12 @@ func c18Failover(cfg FCfg, env *Env) CellResult {
 				writes++
 
 				if e.TTL == updateTTL && e.Tok.O != "b" || (e.TTL == updateTTL && isRefreshOf(h, e)) {
+					refreshes++
+				}
+			case "fault":
+				// a re-store of the stale value that the backend rejects is counted when attempted (the metric is
+				// emitted before the write); nothing else is counted for a rejected call
+				if e.Name == "write" && e.TTL == updateTTL && (e.Tok.O != "b" || isRefreshOf(h, e)) {
 					refreshes++
 				}
 			case "build-end":
